@@ -844,7 +844,7 @@ fn gen_miss(rng: &mut Rng, model: &Value, stats: &mut Stats) -> Loc {
 pub fn gen_doc(rng: &mut Rng) -> Value {
     let wide = rng.chance(1, 4);
     let big = rng.chance(1, 30);
-    let p = if big { DocParams { max_nodes: 40 + rng.below(40), max_depth: 3 + rng.below(7), names: gen::NAMES_ADV, max_width: 10, long_arrays: true } } else { DocParams { max_nodes: if wide { 10 + rng.below(12) } else { 6 + rng.below(9) }, max_depth: if wide { 1 + rng.below(2) } else { 1 + rng.below(4) }, names: gen::NAMES_ADV, max_width: if wide { 12 } else { 4 }, long_arrays: true } };
+    let p = if big { DocParams { max_nodes: 40 + rng.below(40), max_depth: 3 + rng.below(7), names: gen::NAMES_ADV, max_width: 10, long_arrays: true, mixed_names: true } } else { DocParams { max_nodes: if wide { 10 + rng.below(12) } else { 6 + rng.below(9) }, max_depth: if wide { 1 + rng.below(2) } else { 1 + rng.below(4) }, names: gen::NAMES_ADV, max_width: if wide { 12 } else { 4 }, long_arrays: true, mixed_names: true } };
     let mut d = gen::gen_doc(rng, &p);
     // now and then: an array with three-digit indexes
     if rng.chance(1, 120) {
